@@ -10,6 +10,7 @@ import (
 	"testing"
 
 	"github.com/cockroachdb/errors"
+	"github.com/cockroachdb/errors/errorspb"
 	"github.com/cockroachdb/redact"
 	"pgregory.net/rapid"
 
@@ -71,7 +72,7 @@ func Draw(t *rapid.T) *pbt.Case {
 	c.SetStr("alphabet", alpha)
 	g := gen.Default(sg).Boost(2, "uwrapnofmt", "uwrapfmtold", "uleaffmtold", "uwrapformatter", "pkgmsg", "goerrorf", "uwrapsafefmt", "uleafsafefmt")
 	c.Spec = g.Draw(t, rapid.IntRange(1, maxB).Draw(t, "budget"))
-	c.SetStr("variant", rapid.SampledFrom([]string{"local", "decoded", "opaque"}).Draw(t, "variant"))
+	c.SetStr("variant", rapid.SampledFrom([]string{"local", "decoded", "opaque", "legacy-barrier"}).Draw(t, "variant"))
 	return c
 }
 
@@ -80,6 +81,20 @@ func Check(c *pbt.Case, r *pbt.R) {
 	switch c.S["variant"] {
 	case "decoded":
 		e, _ = wire.Hop(e)
+	case "legacy-barrier":
+		// The error arrives from a process running the previous version
+		// of the library, whose barriers have another type name and a
+		// plain (not redactable) message.
+		enc := wire.Unmarshal(wire.Encode(e))
+		wire.VisitDetails(&enc, func(d *errorspb.EncodedErrorDetails, _ bool) {
+			const cur, old = "barriers/*barriers.barrierErr", "barriers/*barriers.barrierError"
+			if strings.HasSuffix(d.ErrorTypeMark.FamilyName, cur) {
+				d.ErrorTypeMark.FamilyName = strings.TrimSuffix(d.ErrorTypeMark.FamilyName, cur) + old
+				d.OriginalTypeName = d.ErrorTypeMark.FamilyName
+			}
+		})
+		legacyMessages(&enc)
+		e = errors.DecodeError(wire.Ctx, enc)
 	case "opaque":
 		enc := wire.Unmarshal(wire.Encode(e))
 		wire.Rename(&enc, func(string) bool { return true })
@@ -143,6 +158,23 @@ func Check(c *pbt.Case, r *pbt.R) {
 	}
 	if boundary {
 		r.Count("features", "hostile atom at a string boundary")
+	}
+}
+
+// legacyMessages turns the redactable message of every (legacy)
+// barrier leaf into the plain text the previous version sent.
+func legacyMessages(enc *errorspb.EncodedError) {
+	if w := enc.GetWrapper(); w != nil {
+		legacyMessages(&w.Cause)
+		return
+	}
+	if l := enc.GetLeaf(); l != nil {
+		if strings.HasSuffix(l.Details.ErrorTypeMark.FamilyName, "barriers/*barriers.barrierError") {
+			l.Message = redact.RedactableString(l.Message).StripMarkers()
+		}
+		for _, c := range l.MultierrorCauses {
+			legacyMessages(c)
+		}
 	}
 }
 
